@@ -136,6 +136,9 @@ pub fn member<P: TECurveConfig>(c: &TeCtx<P>, t: &mut Tape<'_>, o: &mut Obs) -> 
         let sig = if got { "membership.accepts-outside" } else { "membership.rejects-inside" };
         return fail(sig, format!("is_in_correct_subgroup_assuming_on_curve({:?}) = {} but r·P {} the identity [{}]", p, got, if want { "is" } else { "is not" }, cls));
     }
+    // the configuration-level spelling is the same predicate
+    let got2 = no_panic("config.is_in_correct_subgroup", || P::is_in_correct_subgroup_assuming_on_curve(&a))?;
+    ensure!(got2 == want, "membership.config", "P::is_in_correct_subgroup_assuming_on_curve({:?}) = {}", p, got2);
     Ok(())
 }
 
@@ -171,6 +174,10 @@ pub fn clear<P: TECurveConfig>(c: &TeCtx<P>, t: &mut Tape<'_>, o: &mut Obs) -> R
     let pa = te_to_affine::<P>(&p);
     let cp = te_from_affine(&no_panic("clear_cofactor", || pa.clear_cofactor())?);
     ensure!(on_curve::<P>(&cp), "clear.off-curve", "clear_cofactor({:?}) = {:?} is not on the curve", p, cp);
+    let cp2 = te_from_affine(&no_panic("config.clear_cofactor", || P::clear_cofactor(&pa))?);
+    ensure!(cp2 == cp, "clear.config", "P::clear_cofactor(&P) = {:?} but P.clear_cofactor() = {:?}", cp2, cp);
+    let cp3 = te_from_affine(&no_panic("AffineRepr::clear_cofactor", || <Affine<P> as AffineRepr>::clear_cofactor(&pa))?);
+    ensure!(cp3 == cp, "clear.trait", "AffineRepr::clear_cofactor(&P) = {:?} but P.clear_cofactor() = {:?}", cp3, cp);
     ensure!(mul::<P>(&cp, &c.r) == Some(te_identity()), "clear.not-in-subgroup", "clear_cofactor({:?}) = {:?} is not killed by r", p, cp);
     ensure!(cp == hp, "clear.equals-COFACTOR", "clear_cofactor({:?}) = {:?} but [COFACTOR]P = {:?}", p, cp, hp);
     ensure!(no_panic("is_in_correct_subgroup", || te_to_affine::<P>(&cp).is_in_correct_subgroup_assuming_on_curve())?, "clear.membership", "membership test rejects clear_cofactor({:?})", p);
